@@ -644,8 +644,8 @@ def stage_glr(work, tier, seed):
     rs = run.run_tlc_shards(work, "TraceGLR", "TraceGLR.cfg", envs)
     verdicts = [v for r in rs for v in r["verdicts"]]
     return {"verdicts": verdicts, "gtext": gtext, "inputs": inputs,
-            "divergences": (["GLRRuntime predicts %s, observed ok=%s n=%s: %s #%s partial=%s" % (
-                v["mon"]["opmodel"], v["mon"]["ok"], v["mon"]["n"], v["id"], v["iid"], v["partial"])
+            "divergences": (["GLRRuntime predicts %s, observed ok=%s n=%s amb=%s: %s #%s partial=%s" % (
+                v["mon"]["opmodel"], v["mon"]["ok"], v["mon"]["n"], v["mon"].get("amb"), v["id"], v["iid"], v["partial"])
                 for v in verdicts if v["mon"]["opdiv"]]
                 + ["GLR partial parse: %s: %s #%s" % (json.dumps(v["mon"]["gp"]), v["id"], v["iid"])
                    for v in verdicts if v["mon"]["gp"]])[:20],
@@ -656,6 +656,7 @@ def stage_glr(work, tier, seed):
             "ntraces": len(verdicts), "nok": sum(1 for v in verdicts if v["mon"]["ok"]),
             "nsent": sum(1 for v in verdicts if v["mon"]["sent"]),
             "nambiguous": sum(1 for v in verdicts if v["mon"]["n"] > 1),
+            "nambiguities_bound": sum(1 for v in verdicts if v["mon"]["opmodel"]["k"] == "ok" and v["mon"].get("amb", 0) > 0),
             "ninscope": sum(1 for v in verdicts if v["mon"]["inscope"]),
             "nlrglr": sum(1 for v in verdicts if v["mon"]["lrran"]),
             "ncases": len(cases),
